@@ -395,16 +395,22 @@ type vfC06Fataler interface {
 	Fatalf(format string, args ...any)
 }
 
-// vfC06Build makes a DNSFilter holding the table in the given order.  mode 0:
-// from the configuration; 1: every entry through POST /control/rewrite/add;
-// 2: first half from the configuration, the rest through the API.
-func vfC06Build(t vfC06Fataler, tab []vfC06Entry, mode int) (d *DNSFilter, cleanup func()) {
-	vfC06Quiet.Do(func() { log.SetOutput(io.Discard) })
-
+// vfC06TempDir makes the data directory of one case; the filters of a case
+// share it (they only create the empty "filters" directory in it).
+func vfC06TempDir(t vfC06Fataler) (dir string, cleanup func()) {
 	dir, err := os.MkdirTemp("", "vfc06-")
 	if err != nil {
 		t.Fatalf("VERIF-INCONCLUSIVE temp dir: %v", err)
 	}
+
+	return dir, func() { _ = os.RemoveAll(dir) }
+}
+
+// vfC06Build makes a DNSFilter holding the table in the given order.  mode 0:
+// from the configuration; 1: every entry through POST /control/rewrite/add;
+// 2: first half from the configuration, the rest through the API.
+func vfC06Build(t vfC06Fataler, dir string, tab []vfC06Entry, mode int) (d *DNSFilter) {
+	vfC06Quiet.Do(func() { log.SetOutput(io.Discard) })
 
 	split := len(tab)
 	switch mode {
@@ -422,14 +428,9 @@ func vfC06Build(t vfC06Fataler, tab []vfC06Entry, mode int) (d *DNSFilter, clean
 		conf.Rewrites = append(conf.Rewrites, &LegacyRewrite{Domain: e.Domain, Answer: e.Answer})
 	}
 
-	d, err = New(conf, nil)
+	d, err := New(conf, nil)
 	if err != nil {
-		_ = os.RemoveAll(dir)
 		t.Fatalf("VERIF-INCONCLUSIVE filtering.New: %v", err)
-	}
-	cleanup = func() {
-		d.Close()
-		_ = os.RemoveAll(dir)
 	}
 
 	for _, e := range tab[split:] {
@@ -438,12 +439,12 @@ func vfC06Build(t vfC06Fataler, tab []vfC06Entry, mode int) (d *DNSFilter, clean
 		w := httptest.NewRecorder()
 		d.handleRewriteAdd(w, r)
 		if w.Code != http.StatusOK {
-			cleanup()
+			d.Close()
 			t.Fatalf("rewrite/add of %+v refused: %d %s", e, w.Code, w.Body.String())
 		}
 	}
 
-	return d, cleanup
+	return d
 }
 
 // vfC06Lookup calls CheckHost under the watchdog and turns panics and
@@ -694,11 +695,12 @@ func TestVFC06Table(t *testing.T) {
 			orders = append(orders, rapid.Permutation(tab).Draw(t, fmt.Sprintf("order%d", i)))
 		}
 
+		dir, cleanup := vfC06TempDir(t)
+		defer cleanup()
 		filters := make([]*DNSFilter, len(orders))
 		for i, o := range orders {
-			d, cleanup := vfC06Build(t, o, mode)
-			defer cleanup()
-			filters[i] = d
+			filters[i] = vfC06Build(t, dir, o, mode)
+			defer filters[i].Close()
 		}
 
 		nq := rapid.IntRange(1, 6).Draw(t, "questions")
@@ -750,11 +752,12 @@ func TestVFC06Cycles(t *testing.T) {
 		}
 
 		orders := [][]vfC06Entry{tab, rapid.Permutation(tab).Draw(t, "order")}
+		dir, cleanup := vfC06TempDir(t)
+		defer cleanup()
 		filters := make([]*DNSFilter, len(orders))
 		for i, o := range orders {
-			d, cleanup := vfC06Build(t, o, 0)
-			defer cleanup()
-			filters[i] = d
+			filters[i] = vfC06Build(t, dir, o, 0)
+			defer filters[i].Close()
 		}
 
 		for _, host := range append(append([]string{}, names...), tail...) {
@@ -851,13 +854,16 @@ func TestVFC06DocExamples(t *testing.T) {
 			rev[i], rev[j] = rev[j], rev[i]
 		}
 		orders := [][]vfC06Entry{c.tab, rev}
+		dir, cleanup := vfC06TempDir(t)
 		filters := make([]*DNSFilter, len(orders))
 		for i, o := range orders {
-			d, cleanup := vfC06Build(t, o, i%2)
-			defer cleanup()
-			filters[i] = d
+			filters[i] = vfC06Build(t, dir, o, i%2)
 		}
 		vfC06CheckOne(t, c.tab, filters, orders, c.host, c.qtype, true)
+		for _, d := range filters {
+			d.Close()
+		}
+		cleanup()
 	}
 }
 
@@ -894,8 +900,10 @@ func TestVFC06RegressWildcardOtherTypeException(t *testing.T) {
 			t.Fatalf("VERIF-INCONCLUSIVE the model does not recognise the shape in %+v", c.tab)
 		}
 
-		d, cleanup := vfC06Build(t, c.tab, 0)
+		dir, cleanup := vfC06TempDir(t)
+		d := vfC06Build(t, dir, c.tab, 0)
 		got := vfC06Lookup(t, d, c.tab, c.host, c.qtype)
+		d.Close()
 		cleanup()
 		vfC06.Eval()
 		vfC06.Class("regress")
